@@ -339,7 +339,10 @@ FlattenPath(path) ==
   IF Len(path) = 0 \/ path = <<SLASH>> THEN <<SLASH>>
   ELSE LET p  == IF path[1] = SLASH THEN Tail(path) ELSE path
            np == FoldParts(Split(p, SLASH), <<>>)
-           n2 == IF LastIs(p, SLASH) \/ Len(np) = 0 THEN Append(np, <<>>) ELSE np
+           ps == Split(p, SLASH)
+           \* a final "." or ".." names a directory, like a final "/"
+           n2 == IF LastIs(p, SLASH) \/ Len(np) = 0 \/ ps[Len(ps)] \in {<<DOT>>, <<DOT, DOT>>}
+                 THEN Append(np, <<>>) ELSE np
        IN <<SLASH>> \o Join(n2, SLASH)
 
 NormPath(path, enc) == LET p == IF StartsWith(path, <<SLASH>>) THEN path ELSE <<SLASH>> \o path
@@ -746,6 +749,10 @@ Variants(b) ==
          V("default-port", Render([b EXCEPT !.po = <<COLON>> \o b.dp])) ELSE <<>>)
      \o (IF StartsWith(b.pa, <<SLASH>>)
          THEN V("dot-segment", Render([b EXCEPT !.pa = tDOTSEG \o @])) \o V("dotdot-segment", Render([b EXCEPT !.pa = tDDSEG \o @]))
+         ELSE <<>>)
+     \* a dot segment at the END of the path names the directory: "/a/" = "/a/." = "/a/x/.."
+     \o (IF StartsWith(b.pa, <<SLASH>>) /\ LastIs(b.pa, SLASH)
+         THEN V("dot-segment-last", Render([b EXCEPT !.pa = @ \o S(".")])) \o V("dotdot-segment-last", Render([b EXCEPT !.pa = @ \o S("x/..")]))
          ELSE <<>>)
      \o (IF ~Has(b.qf, HASH) /\ ~IsSpace(Render(b)[Len(Render(b))])      \* (trailing white space is stripped)
          THEN V("fragment", Render(b) \o tFRAG) ELSE <<>>)
